@@ -51,7 +51,7 @@ def is_int_ty(ty):
 STD_NAMES = ("Option", "Result", "ControlFlow", "Infallible", "TryFrom", "TryInto", "From", "Into",
              "Ordering", "TryFromIntError", "Clone", "PartialOrd", "PartialEq", "Ord", "Try",
              "FromResidual", "Mul", "Div", "Add", "Sub", "Rem", "DivAssign", "MulAssign", "AddAssign",
-             "SubAssign", "Neg", "Not", "Default")
+             "SubAssign", "Neg", "Not", "Default", "Range", "IntoIterator", "Iterator", "Index", "Deref")
 _STD_RE = re.compile(r"\b(?:std|core)::(?:\w+::)*(" + "|".join(STD_NAMES) + r")\b")
 _INT = "(?:u8|u16|u32|u64|u128|i8|i16|i32|i64|i128|usize|isize)"
 
@@ -420,6 +420,10 @@ def vite(c, a, b):
         return a if a.d == b.d else Opq(f"({a.d}|{b.d})"[:80])
     if isinstance(a, LazySt) and isinstance(b, LazySt) and a is b:
         return a
+    ua = isinstance(a, Opq) or (isinstance(a, En) and a.kind.startswith("user:"))
+    ub = isinstance(b, Opq) or (isinstance(b, En) and b.kind.startswith("user:"))
+    if ua and ub and (isinstance(a, Opq) or isinstance(b, Opq) or a.kind != b.kind):
+        return Opq("(merged opaque values)")        # error codes / payloads that are never inspected
     raise Unsupported(f"cannot merge values {a!r} / {b!r}")
 
 
@@ -492,6 +496,49 @@ class World:
                 raise Unsupported(f"field syntax {f!r} in struct {name}")
             out.append(fm.group(1))
         return out
+
+    def pod_layout(self, rel, name):
+        """Byte layout {field: (offset, size)} and total size of a `#[zero_copy]` (repr(C), Pod: no implicit
+        padding) struct whose fields are primitive integers or arrays of them, read from the source;
+        array lengths may use `const NAME: usize = <int>;` of the same file and `NAME + <int>`."""
+        txt = open(os.path.join(self.repo, rel)).read()
+        m = re.search(rf"\bstruct {re.escape(name)}\b[^{{;]*\{{", txt)
+        if not m:
+            raise Unsupported(f"struct {name} not found in {rel}")
+        j = match_close(txt, m.end() - 1)
+        body = re.sub(r"/\*.*?\*/", "", txt[m.end():j], flags=re.S)
+        body = re.sub(r"//[^\n]*", "", body)
+        body = re.sub(r"#\[[^\]]*\]", "", body)
+        consts = {c.group(1): int(c.group(2)) for c in re.finditer(r"const (\w+): usize = (\d+);", txt)}
+
+        def length(e):
+            e = e.strip()
+            mm = re.fullmatch(r"(\w+)\s*\+\s*(\d+)", e)
+            if mm and mm.group(1) in consts:
+                return consts[mm.group(1)] + int(mm.group(2))
+            if e in consts:
+                return consts[e]
+            if e.isdigit():
+                return int(e)
+            raise Unsupported(f"array length {e!r} in struct {name}")
+
+        def size(t):
+            t = t.strip()
+            if t in PRIMS and t not in ("usize", "isize"):
+                return (PRIMS[t][1] - PRIMS[t][0] + 1).bit_length() // 8
+            mm = re.fullmatch(r"\[(.*);(.*)\]", t)
+            if mm:
+                return size(mm.group(1)) * length(mm.group(2))
+            raise Unsupported(f"field type {t!r} in struct {name}: layout not computable")
+        out, off = {}, 0
+        for f in split_top(body):
+            fm = re.match(r"^(?:pub(?:\([^)]*\))?\s+)?(\w+)\s*:\s*(.*)$", f.strip(), re.S)
+            if not fm:
+                raise Unsupported(f"field syntax {f!r} in struct {name}")
+            sz = size(fm.group(2))
+            out[fm.group(1)] = (off, sz)
+            off += sz
+        return out, off
 
     def enum_variants(self, name):
         """{variant: discriminant} of the fieldless enum `name` declared in one of the workspace crates
@@ -825,7 +872,11 @@ class Exec:
         if loops and not self.unroll:
             raise Unsupported(f"loop in {item.name} (back edge {loops[0]})")
         if loops:
-            raise Unsupported(f"loop in {item.name}: bounded unrolling not implemented")
+            item = self.unrolled(item, loops, self.unroll)
+            blocks = item.blocks
+            order, loops2 = self.topo(item)
+            if loops2:
+                raise Unsupported(f"nested / irreducible loop in {item.name}")
         incoming = {b: [] for b in order}
         incoming["bb0"].append((self.pc, st0))
         ret = None
@@ -869,6 +920,65 @@ class Exec:
             ret = Opq("diverges")
         return ret
 
+    def unrolled(self, item, loops, k):
+        """Bounded unrolling of one natural loop: the loop body is copied k times (copy j's back edge
+        enters copy j+1's header); the back edge of the last copy goes to a block that records
+        "loop bound exceeded" as a panic-like obligation, so the bound is checked, never assumed."""
+        key = (item.name, k)
+        cache = self.__dict__.setdefault("_unrolled", {})
+        if key in cache:
+            return cache[key]
+        heads = {h for _, h in loops}
+        if len(heads) != 1:
+            raise Unsupported(f"more than one loop in {item.name}")
+        h = heads.pop()
+        succ = {b.name: [t for t in self.normal_targets(b.term) if t != "return"] for b in item.blocks.values() if not b.cleanup}
+        pred = {}
+        for u, vs in succ.items():
+            for v in vs:
+                pred.setdefault(v, []).append(u)
+        body = {h}
+        work = [u for u, hh in loops]
+        while work:
+            u = work.pop()
+            if u not in body:
+                body.add(u)
+                work += pred.get(u, [])
+        import copy
+        from mirparse import Block
+
+        def rename(term, j, last):
+            def sub(m):
+                t = m.group(0)
+                if t not in body:
+                    return t
+                if t == h:
+                    # an edge to the header from inside the body is the back edge
+                    return "bb_loop_bound_exceeded" if last else f"{h}__{j + 1}"
+                return f"{t}__{j}"
+            return re.sub(r"bb\d+(?![\w])", sub, term)
+        new = copy.copy(item)
+        new.blocks = {}
+        for name, b in item.blocks.items():
+            if b.cleanup:
+                continue
+            if name not in body:
+                nb = Block(name, False)
+                nb.stmts, nb.term = b.stmts, re.sub(rf"{h}(?![\w])", f"{h}__0", b.term)
+                new.blocks[name] = nb
+                continue
+            for j in range(k + 1):
+                nb = Block(f"{name}__{j}", False)
+                nb.stmts, nb.term = b.stmts, rename(b.term, j, j == k)
+                new.blocks[nb.name] = nb
+        sink = Block("bb_loop_bound_exceeded", False)
+        sink.term = "loop_bound_exceeded"
+        new.blocks["bb_loop_bound_exceeded"] = sink
+        if "bb0" in body:
+            raise Unsupported("loop header is the entry block")
+        cache[key] = new
+        return new
+
     def topo(self, item):
         """Topological order of the non-cleanup blocks reachable from bb0 via normal edges."""
         succ = {}
@@ -898,26 +1008,26 @@ class Exec:
     def normal_targets(term):
         if term in ("return",):
             return ["return"]
-        if term in ("unreachable", "resume") or term.startswith("abort") or term.startswith("terminate"):
+        if term in ("unreachable", "resume", "loop_bound_exceeded") or term.startswith("abort") or term.startswith("terminate"):
             return []
-        m = re.match(r"^goto -> (bb\d+)$", term)
+        m = re.match(r"^goto -> (bb\w+)$", term)
         if m:
             return [m.group(1)]
         if term.startswith("switchInt("):
             j = term.rindex("-> [")
-            return re.findall(r": (bb\d+)", term[j:])
+            return re.findall(r": (bb\w+)", term[j:])
         if term.startswith("assert("):
-            m = re.search(r"-> \[success: (bb\d+)", term)
+            m = re.search(r"-> \[success: (bb\w+)", term)
             return [m.group(1)]
         if term.startswith("drop("):
-            m = re.search(r"-> \[return: (bb\d+)", term)
+            m = re.search(r"-> \[return: (bb\w+)", term)
             return [m.group(1)]
-        m = re.search(r" -> \[return: (bb\d+), unwind[^\]]*\]$", term)
+        m = re.search(r" -> \[return: (bb\w+), unwind[^\]]*\]$", term)
         if m:
             return [m.group(1)]
         if re.search(r" -> unwind [a-z()]+$", term) or re.search(r" -> \[unwind[^\]]*\]$", term):
             return []          # diverging call
-        m = re.search(r" -> (bb\d+)$", term)
+        m = re.search(r" -> (bb\w+)$", term)
         if m:
             return [m.group(1)]
         raise Unsupported(f"terminator {term!r}")
@@ -1317,7 +1427,15 @@ class Exec:
         # array
         if rv.startswith("[") and rv.endswith("]"):
             inner = rv[1:-1]
-            if len(split_top(inner, ";")) > 1:
+            rep = split_top(inner, ";")
+            if len(rep) == 2:
+                n = self.operand_or_local(rep[1], st) if rep[1].startswith("const ") else None
+                cnt = n.t if isinstance(n, I) and is_c(n.t) else (int(rep[1]) if rep[1].isdigit() else None)
+                if cnt is None or cnt > 4096:
+                    raise Unsupported(f"repeat array {rv!r}")
+                x = self.operand(rep[0], st, item)
+                return Tup([x] * cnt)
+            if len(rep) > 1:
                 raise Unsupported(f"repeat array {rv!r}")
             return Tup(self.operand(x, st, item) for x in split_top(inner))
         if rv.startswith("{closure@"):
@@ -1326,12 +1444,14 @@ class Exec:
             cty, rest = rv[:j + 1], rv[j + 1:].strip()
             if not (rest.startswith("{") and rest.endswith("}")):
                 raise Unsupported(f"closure aggregate {rv!r}")
-            caps = []
+            caps, ops = [], []
             for f in split_top(rest[1:-1]):
                 m = re.match(r"^(\w+): (.*)$", f)
                 if not m:
                     raise Unsupported(f"closure capture {f!r}")
+                ops.append(m.group(2))
                 caps.append(self.operand(m.group(2), st, item))
+            caps += self.elided_captures(cty, ops, st, item)
             return St(cty, caps)
         # ADT: Path(args) | Path { f: v } | Path
         args = None
@@ -1384,7 +1504,10 @@ class Exec:
         if t == "unreachable":
             self.panic(f"`unreachable` reached in {item.last}", True)
             return []
-        m = re.match(r"^goto -> (bb\d+)$", t)
+        if t == "loop_bound_exceeded":
+            self.panic(f"loop bound exceeded in {item.last}: more than {self.unroll} iterations (bounded unrolling)", True)
+            return []
+        m = re.match(r"^goto -> (bb\w+)$", t)
         if m:
             return [(m.group(1), True)]
         if t.startswith("switchInt("):
@@ -1427,17 +1550,17 @@ class Exec:
                 # on the success edge the asserted condition is known: fold it into the state
                 for k in list(st):
                     st[k] = vassume(st[k], c.t, not neg)
-            tgt = re.search(r"success: (bb\d+)", t[j:]).group(1)
+            tgt = re.search(r"success: (bb\w+)", t[j:]).group(1)
             return [(tgt, True)]
         if t.startswith("drop("):
             v = t[5:t.index(")")]
-            tgt = re.search(r"return: (bb\d+)", t).group(1)
+            tgt = re.search(r"return: (bb\w+)", t).group(1)
             self.check_drop(st.get(v), item)
             return [(tgt, True)]
         # call
-        m = re.search(r" -> \[return: (bb\d+), unwind[^\]]*\]$", t)
+        m = re.search(r" -> \[return: (bb\w+), unwind[^\]]*\]$", t)
         m2 = re.search(r" -> (?:unwind [a-z()]+|\[unwind[^\]]*\])$", t)
-        m3 = re.search(r" -> (bb\d+)$", t) if not (m or m2) else None
+        m3 = re.search(r" -> (bb\w+)$", t) if not (m or m2) else None
         mm = m or m2 or m3
         if mm:
             body = t[:mm.start()]
@@ -1490,6 +1613,7 @@ class Exec:
             if m:
                 return f(self, m, args)
         tapped = [n for n, rx in self.tap_rx if rx.match(callee) and len(self.frames) == 1]
+        call_pc = self.pc
         r = self.models.dispatch(self, callee, args)
         if r is NotImplemented:
             # closures passed as values are called through models; direct crate-local calls:
@@ -1499,9 +1623,7 @@ class Exec:
             it, subst = target
             r = self.run(it, subst, args)
         for n in tapped:
-            if n in self.taps:
-                raise Unsupported(f"tap {n}: more than one matching call ({callee})")
-            self.taps[n] = (list(args), r)
+            self.taps.setdefault(n, []).append((list(args), r, call_pc))
         return r
 
     def resolve_local(self, callee):
@@ -1523,6 +1645,48 @@ class Exec:
                 raise Unsupported(f"generic trait method {callee!r}")
             return self.w.find_trait_item(inner[:k], inner[k + 4:], m.group(1), "fn")
         return self.w.find_path_item(c, "fn")
+
+    def closure_item(self, cty):
+        cands = [it for it in self.w.items if it.kind == "fn" and it.args and
+                 it.args[0][1].lstrip("&").strip() == cty and "{closure#" in it.name]
+        uniq = {}
+        for it in cands:
+            uniq.setdefault(it.name, it)
+        if len(uniq) != 1:
+            raise Unsupported(f"closure body for {cty} not found uniquely ({len(uniq)})")
+        return next(iter(uniq.values()))
+
+    def elided_captures(self, cty, ops, st, item):
+        """rustc's MIR printer zips the captured *variables* with the capture operands, so with precise
+        (per-field) captures it prints fewer operands than the closure has.  The missing ones are
+        recovered only if unambiguous: the temporaries numbered right after the last printed operand,
+        each assigned exactly once and used nowhere else in the function, with the type the closure body
+        expects for that capture.  Anything else raises Unsupported."""
+        body = self.closure_item(cty)
+        need = {}
+        for b in body.blocks.values():
+            for txt in b.stmts + [b.term]:
+                for m in re.finditer(r"\(\*?_1\)?\.(\d+): ([^()]*(?:\([^()]*\))?[^()]*)\)", txt):
+                    need[int(m.group(1))] = m.group(2).strip()
+        n_need = max(need) + 1 if need else 0
+        if n_need <= len(ops):
+            return []
+        m = re.match(r"^(?:move|copy) _(\d+)$", ops[-1]) if ops else None
+        if not m:
+            raise Unsupported(f"closure {cty}: captures elided by the MIR printer cannot be recovered")
+        n0 = int(m.group(1))
+        text = [x for b in item.blocks.values() for x in b.stmts + [b.term]]
+        sub = self.subst_stack[-1] if self.subst_stack else {}
+        out = []
+        for k in range(len(ops), n_need):
+            lid = f"_{n0 + (k - len(ops)) + 1}"
+            uses = [x for x in text if re.search(rf"(?<![\w]){lid}(?![\w])", x)]
+            lty = normalize(apply_subst(item.locals.get(lid, "?"), sub))
+            if len(uses) != 1 or not uses[0].startswith(lid + " = ") or lty != normalize(apply_subst(need.get(k, "??"), sub)) or st.get(lid) is None:
+                raise Unsupported(f"closure {cty}: capture {k} elided by the MIR printer cannot be recovered from {lid}")
+            out.append(st[lid])
+        self.trusted.add("closure captures elided by rustc's MIR printer are recovered from the unused, type-matching temporaries assigned just before the closure value")
+        return out
 
     def call_closure(self, clos, args):
         """Call a closure value (zero-sized, non-capturing) by inlining its MIR body."""
